@@ -80,6 +80,17 @@ def kill (r0 : Run) (addr : Nat) : Run :=
   { r with s := s, calls := r.calls.map fun c =>
       if !c.done && (match c.heldOn with | some id => ids.contains id | none => false) then { c with done := true, err := "shutdown", heldOn := none } else c }
 
+/-- the server drops every connection of `addr` but stays reachable -/
+def bounce (r0 : Run) (addr : Nat) : Run :=
+  let r := syncTick r0
+  let s := r.s
+  let ids := (List.range s.nextId).filter fun id => match getPc s id with | some p => p.addr == addr && !p.dead | none => false
+  let s := ids.foldl (fun s id => step s (.peerDies id)) s
+  let failing := r.calls.filter fun c => !c.done && (match c.heldOn with | some id => ids.contains id | none => false)
+  let s := failing.foldl (fun s c => match c.heldOn with | some id => step (step s (.stamp id)) (.fail id) | none => s) s
+  { r with s := s, calls := r.calls.map fun c =>
+      if !c.done && (match c.heldOn with | some id => ids.contains id | none => false) then { c with done := true, err := "shutdown", heldOn := none } else c }
+
 /-- logical idle time: the housekeeping ticks of the phase, one every `tickPeriod` -/
 def idleFor (r : Run) (d : Nat) : Run :=
   let n := d / tickPeriod
@@ -114,6 +125,7 @@ def action (r : Run) (toks : List String) : Option Run :=
     | none => none
   | ["finish", k] => k.toNat?.map (finishCall r)
   | ["kill", a] => some (kill r (addrOf a))
+  | ["bounce", a] => some (bounce r (addrOf a))
   | ["revive", a] => some { r with s := step r.s (.setUp (addrOf a) true) }
   | ["idle", "short"] => some (idleFor r 10)
   | ["idle", "medium"] => some (idleFor r 810)
